@@ -549,6 +549,29 @@ pub fn gen_mixed(rng: &mut Rng, tag: u8, kind: Kind, p0len: usize, mbuff_len: us
     b.trailer(tag);
     let mut has_call = false;
     if with_callee {
+        // Cranelift translates every `call` as a helper call keyed by its immediate: a displacement
+        // that happens to equal a registered helper key (10, 11, 12) would compile there and call the
+        // helper with whatever r1-r5 hold (addresses). Unreachable padding moves the callee until no
+        // call site's displacement is a helper key, so that Cranelift always refuses the program.
+        loop {
+            let callee_at = b.len() as i32;
+            let mut clash = false;
+            let mut i = 0;
+            while i + 8 <= b.v.len() {
+                if b.v[i] == CALL && (b.v[i + 1] >> 4) == 1 {
+                    let disp = callee_at - (i as i32 / 8 + 1);
+                    clash |= MIXER_KEYS.contains(&(disp as u32)) || disp as u32 == KEY_NEVER || (0x9000..0x9100).contains(&disp);
+                }
+                if b.v[i] == LD_DW_IMM {
+                    i += 8;
+                }
+                i += 8;
+            }
+            if !clash {
+                break;
+            }
+            b.i(MOV64_REG, 0, 0, 0, 0);
+        }
         // the callee: arithmetic on the data registers only (r6-r8 are restored on return, r0 is the result)
         let callee_at = b.len();
         b.i(0x0f, 0, 7, 0, 0); // add64 r0, r7
